@@ -99,6 +99,8 @@ def run(ctx, prj: Project, cap: int = 2, tag=""):
     if len(langs) < 7:
         raise AnalysisError(f"only {len(langs)} languages with header patterns found (7 confirmed by reading)")
     rule = consume_rule(prj)
+    if rule.priority_open is None:
+        raise AnalysisError(f"{rule.fi.disp}: the selection rule fits none of the recognised forms: {rule.other[:3]}")
     ctx.extra["consume_rule"] = dict(priority_open=rule.priority_open, raises_on_second=rule.raises_on_second,
                                      first_match=rule.first_match)
     interp = Interp(prj)
